@@ -14,7 +14,7 @@ git apply $src/patch.diff || { echo "PATCH DOES NOT APPLY"; exit 2; }
 go build ./... || { echo "BUILD FAILS"; exit 2; }
 suite=$(timeout 600 go test -vet=off -count=1 ./... 2>&1 | grep -E "^(FAIL|---|panic)" | head -5)
 [ -z "$suite" ] && echo "suite-with-patch: PASS" || { echo "suite-with-patch: FAIL"; echo "$suite"; }
-for m in "$@"; do f=${m%%:*}; d=${m#*:}; cp $src/$f $wt/$d; done
+for m in "$@"; do f=${m%%:*}; d=${m#*:}; mkdir -p $(dirname $wt/$d); cp $src/$f $wt/$d; done
 with=$(timeout 600 go test -vet=off -count=1 -run "$re" "${pkgs[@]}" 2>&1 | grep -E "^(ok|FAIL|---)" | head -8)
 echo "demo-with-patch:"; echo "$with"
 git apply -R $src/patch.diff
